@@ -233,6 +233,10 @@ def search(run, info):
     for name, t in gen_text.fixtures():
         ptexts.append(t)
     ptexts.extend(progs)
+    # a byte order mark or other stray character in front must not shift what follows
+    for lead in ("\ufeff", "\u00a0", "\ufeff\ufeff"):
+        for pr in progs[:10]:
+            ptexts.append(lead + pr)
     for i, t in enumerate(ptexts):
         pcases.append({"id": i, "op": "parse", "text": hexs(t), "file": "dir/some file.st", "collect": True})
     pres = vlib.run_impl(pcases, run.workdir)
